@@ -339,7 +339,7 @@ func gostringFieldIssues(rs *Resid, fn *ast.FuncDecl) []sideIssue {
 				any = true
 			}
 		}
-		if !any {
+		if !any && d.Fn != "derive.Fields" {
 			continue
 		}
 		for i := 0; i < rs.Run.Arities[d.Choice]; i++ {
